@@ -37,6 +37,30 @@ func (t *failTransport) RoundTrip(r *http.Request) (*http.Response, error) {
 	return nil, errNoNetwork
 }
 
+// pollRecorder refuses every request and remembers what was asked for.
+type pollRecorder struct {
+	mu   sync.Mutex
+	urls []string
+}
+
+func (t *pollRecorder) RoundTrip(r *http.Request) (*http.Response, error) {
+	t.mu.Lock()
+	t.urls = append(t.urls, r.URL.String())
+	t.mu.Unlock()
+	return nil, errNoNetwork
+}
+
+func (t *pollRecorder) seen(prefix string) bool {
+	t.mu.Lock()
+	defer t.mu.Unlock()
+	for _, u := range t.urls {
+		if strings.HasPrefix(u, prefix) {
+			return true
+		}
+	}
+	return false
+}
+
 type nopWitness struct{ calls int }
 
 func (n *nopWitness) GetLatestCheckpoint(context.Context, string) ([]byte, error) {
@@ -231,6 +255,7 @@ func mainLogLists(run *ev.Run, tag, what string, cfgYAML []byte) {
 	var cfg omniwitness.LogConfig
 	_ = yaml.Unmarshal(cfgYAML, &cfg)
 	want, _ := cfg.AsLogMap()
+	polled := &pollRecorder{}
 	go func() {
 		defer func() {
 			if p := recover(); p != nil {
@@ -240,14 +265,14 @@ func mainLogLists(run *ev.Run, tag, what string, cfgYAML []byte) {
 		// The distributor is configured (its pushes fail: no network): it asks the
 		// witness about every log IT was given, which must be the witness map's logs.
 		done <- omniwitness.Main(ctx, omniwitness.OperatorConfig{WitnessKeys: []note.Signer{u.W1.Signer, u.W1.CosigSigner}, WitnessVerifier: u.W1.CosigVerif,
-			RestDistributorBaseURL: "http://distributor.verif.test", DistributeInterval: time.Hour},
+			RestDistributorBaseURL: "http://distributor.verif.test", DistributeInterval: time.Hour, FeedInterval: 50 * time.Millisecond},
 			lspwrap.New(inmemory.NewPersistence(), lspwrap.Hooks{Observe: func(op, id string, _ []byte, _ error) {
 				if op == "ReadOps" {
 					askedMu.Lock()
 					asked[id] = true
 					askedMu.Unlock()
 				}
-			}}), ln, &http.Client{Transport: &failTransport{}})
+			}}), ln, &http.Client{Transport: polled})
 	}()
 	deadline := time.Now().Add(60 * time.Second)
 	for time.Now().Before(deadline) {
@@ -288,6 +313,49 @@ func mainLogLists(run *ev.Run, tag, what string, cfgYAML []byte) {
 					}
 				}
 				askedMu.Unlock()
+				// Polling is on: every entry that has a feeder is polled under
+				// ITS OWN URL, an entry without one (Feeder: none) is not polled.
+				base := func(raw string) string {
+					if i := strings.IndexByte(raw, '?'); i >= 0 {
+						raw = raw[:i]
+					}
+					return strings.TrimSuffix(raw, "/")
+				}
+				var withFeeder, without []omniwitness.LogInfo
+				for _, l := range cfg.Logs {
+					if l.Feeder == omniwitness.None {
+						without = append(without, l)
+					} else if !strings.HasPrefix(l.URL, "file:") {
+						withFeeder = append(withFeeder, l)
+					}
+				}
+				unpolled := func() []string {
+					var m []string
+					for _, l := range withFeeder {
+						if !polled.seen(base(l.URL)) {
+							m = append(m, l.Origin)
+						}
+					}
+					return m
+				}
+				for t0 := time.Now(); len(unpolled()) > 0 && time.Since(t0) < 20*time.Second; {
+					time.Sleep(50 * time.Millisecond)
+				}
+				if m := unpolled(); len(m) > 0 {
+					run.Report("configured-log-never-polled"+sfx, fmt.Sprintf("omniwitness.Main over %s with polling on: %d of %d entries that have a feeder were never polled under their own URL: %v", what, len(m), len(withFeeder), m), map[string]any{"kind": "main-start"})
+				}
+				for _, l := range without {
+					shared := false
+					for _, o := range withFeeder {
+						if strings.HasPrefix(base(l.URL), base(o.URL)) || strings.HasPrefix(base(o.URL), base(l.URL)) {
+							shared = true
+						}
+					}
+					if !shared && polled.seen(base(l.URL)) {
+						run.Report("log-without-feeder-polled"+sfx, fmt.Sprintf("omniwitness.Main over %s: %s is configured with Feeder: none, yet its URL %s was polled", what, l.Origin, l.URL), map[string]any{"kind": "main-start"})
+					}
+				}
+				run.Add("main_polled_entries_checked", int64(len(withFeeder)+len(without)))
 				cancel()
 				select {
 				case <-done:
